@@ -3,7 +3,8 @@
     regenerated from /repo on every run into coq/gen/C02/*.v and instantiate these theorems. *)
 From Coq Require Import Reals List ZArith.
 From Interval Require Import Eval.Prog Eval.Tree Real.Xreal Eval.Eval.
-From FeosVerif Require Import ProgSem Homog.
+From FeosVerif Require Import ProgSem Homog AD Euler.
+Import ListNotations.
 
 (** Every output of a traced program whose degree check succeeds is homogeneous of degree [j] in
     (V, N) at fixed T — for all states, all scale factors, all values of the non-zero constants. *)
@@ -48,3 +49,18 @@ Print Assumptions C02_comparisons_scale_invariant.
 Theorem C02_zero_flags_ok : forall consts, consts_ok (zero_flags consts) (inputs_R consts).
 Proof. exact zero_flags_ok. Qed.
 Print Assumptions C02_zero_flags_ok.
+
+(** Euler's relation A = V dA/dV + sum_i N_i dA/dN_i for every program that passes the degree check:
+    the derivative program of C01 ([tan_outs]), seeded with the direction (0, V, N_1..N_n, 0...), returns
+    the value of the program itself — for every state and all values of the constants; [dv] is, by
+    C01_directional_derivative, the directional derivative -p V + sum_i mu_i N_i of output [k]. *)
+Theorem C02_euler_relation : forall P ncomp cz nouts T V N consts k y dv,
+  outputs_deg P ncomp cz nouts 1%Z = true ->
+  length N = ncomp -> consts_ok cz consts -> (k < nouts)%nat ->
+  let n := length (thermo_env T V N consts) in
+  wscoped P n = true -> (k < length P + n)%nat ->
+  out_ext P (thermo_env T V N consts) k = Xreal y ->
+  nth 0 (eval_ext (tan_outs P n [k]) (map Xreal (thermo_env T V N consts ++ euler_dir V N consts))) Xnan = Xreal dv ->
+  dv = y.
+Proof. exact euler_relation. Qed.
+Print Assumptions C02_euler_relation.
